@@ -562,6 +562,45 @@ func (x *Exec) finish(fd *ast.FuncDecl) {
 		}
 	}
 	for k, en := range ct.Ensures {
+		if q, isQ := en.E.(*SQuant); isQ && q.Forall && len(ct.SplitVars) > 0 {
+			// skolemise the bound variables and split on the declared cases (a proof-search tactic, no assumption)
+			bound := map[string]Sc{}
+			for _, v := range q.Vars {
+				srt := specSort(v[1])
+				bound[v[0]] = Sc{c.fresh("sk."+v[0], srt), srt}
+			}
+			env.bound = bound
+			var goal string
+			var cases []string
+			ok := true
+			func() {
+				defer func() {
+					if r := recover(); r != nil {
+						if _, isSF := r.(specFailure); isSF {
+							ok = false
+							return
+						}
+						panic(r)
+					}
+				}()
+				goal = env.evalBool(q.Body)
+				for _, sv := range ct.SplitVars {
+					cases = append(cases, env.evalBool(sv.E))
+				}
+			}()
+			env.bound = nil
+			if ok {
+				o := c.oblige("post", fmt.Sprintf("#%d", k+1), final.pc, goal, fd.Body.Rbrace, en.Text)
+				o.Split = cases
+				if len(en.Props) > 0 {
+					o.Props = en.Props
+				}
+				if ct.Sequential {
+					c.assume(final.pc, env.evalBool(en.E))
+				}
+				continue
+			}
+		}
 		g := env.evalBool(en.E)
 		parts := splitConj(g)
 		for pi, part := range parts {
